@@ -13,7 +13,7 @@ import json, os, subprocess
 from lib import vf
 
 MANIFEST = {
-  'text': "Coq theorems over the model of error.go / linter.go printErrors (coq/Out/Render.v) and of the shipped problem-matcher pattern (coq/Out/Matcher.v): the header written piece by piece by PrettyPrint is exactly `file:line:col: message [kind]` + line feed; in -oneline mode the output lines are exactly the headers of the diagnostics in order and count, provided no field contains a line feed; in every mode the output is, per diagnostic and in order, header then snippet block; a shown snippet is the (line-1)th bufio.ScanLines token of the source followed by an indicator whose caret is preceded by as many spaces as the display width of the line's first col-1 bytes (= col-1 for printable ASCII); PrettyPrint and GetTemplateFields cannot hit an out-of-range slice for any (line, column, source) and any answer of the width library; the shipped pattern's leftmost/lazy semantics parses a header back to its five fields when the file has no ':' and the message no \" [\" (the unrestricted statement is refuted by a witness). Message construction: strconv.Quote output never contains a line feed; a format whose user-controlled arguments enter through %q (or through audited safe arguments) yields a one-line message. Unbounded (all diagnostics, sources, positions). Tied to the code by vm_compute evaluation of the models on recorded runs of actionlint.Command.Main / Error.PrettyPrint / GetTemplateFields / Go regexp on the shipped pattern. Source gate: every %s / %v argument of every diagnostic format (and every message glued together with +) is re-listed from the .go files on every run and proved to be a quoted value, a fixed word, a position, a number, a library error text or a tool text (coq/Out/FormatArgs.v): strings of the workflow are printed with %q only.",
+  'text': "Coq theorems over the model of error.go / linter.go printErrors (coq/Out/Render.v) and of the shipped problem-matcher pattern (coq/Out/Matcher.v): the header written piece by piece by PrettyPrint is exactly `file:line:col: message [kind]` + line feed; in -oneline mode the output lines are exactly the headers of the diagnostics in order and count, provided no field contains a line feed; in every mode the output is, per diagnostic and in order, header then snippet block; a shown snippet is the (line-1)th bufio.ScanLines token of the source followed by an indicator whose caret is preceded by as many spaces as the display width of the line's first col-1 bytes (= col-1 for printable ASCII); PrettyPrint and GetTemplateFields cannot hit an out-of-range slice for any (line, column, source) and any answer of the width library; the shipped pattern's leftmost/lazy semantics parses a header back to its five fields when the file has no ':' and the message no \" [\" (the unrestricted statement is refuted by a witness). Message construction: strconv.Quote output never contains a line feed; a format whose user-controlled arguments enter through %q (or through audited safe arguments) yields a one-line message. Unbounded (all diagnostics, sources, positions). Tied to the code by vm_compute evaluation of the models on recorded runs of actionlint.Command.Main / Error.PrettyPrint / GetTemplateFields / Go regexp on the shipped pattern. Source gate: every %s / %v argument of every diagnostic format (and every message glued together with +) is re-listed from the .go files on every run and proved to be a quoted value, a fixed word, a position, a number, a library error text or a tool text (coq/Out/FormatArgs.v): strings of the workflow are printed with %q only. The text of a library error is flattened by oneLine: no LF, CR, NEL, LS or PS is left, other text is kept in order (coq/Out/OneLine.v, K through the verif export VerifOneLine; the LF-only flattening before 040a767 is refuted). In the harness a line break is LF, CR, NEL, LS or PS, and the shipped matcher pattern is treated as the ECMAScript pattern it is (its dot stops at CR, LS, PS).",
   'note': "Partial for 'messages never contain line breaks': proved for the format model, established for the real format sites by the harness (56 echo sites x hostile strings through all output modes) and, where built, the verb audit; sites not reached by the generators are not covered. Trusted: Coq kernel; hand-written models (correspondence-checked); harness. Library code not modelled (oracle tables or K only): go-runewidth, encoding/json, text/template, fatih/color (checks run with -no-color; -color is exercised by the oracle only), bufio.Scanner's 64 KiB token limit, Go int overflow. The matcher model covers ESC-free input. Line break = line feed (U+000A).",
   'technique': "machine-checked proof in Coq (induction over byte strings and diagnostic lists; backtracking matcher) + vm_compute correspondence against Command.Main, PrettyPrint, GetTemplateFields and Go regexp + property oracle on the implementation",
  }
